@@ -16,21 +16,23 @@ RULE = ("case = (writable servers, read-only servers, share numbers, existing-sh
         "model and function on every layout <= 3 servers x <= 3 shares plus seeded samples")
 META = {
     "title": "Share placement is complete, respects read-only servers, maximizes spread",
-    "level_text": ("Coq: executable model of share_placement and all its helpers (three matching phases on the Edmonds-Karp "
-                   "core shared with C08, homeless-share distribution with the priority queue, round-robin), every iteration "
-                   "over a Python set taken from an explicit order argument so theorems hold for every CPython set order.  "
-                   "Proved for all inputs: a boolean validator of placements (every share placed; read-only server only "
-                   "on shares it holds; witness matching + vertex cover of equal size) is sound for the three clauses of the "
-                   "property, the third via the Koenig certificate theorem of C08.  The model computes the certificate from "
-                   "the read-only phase's final BFS colouring; for every input on which the validator accepts, the model's "
-                   "placement is total, respects read-only servers and uses a maximum number of distinct servers."),
-    "level_note": ("PARTIAL (certificate route, DESIGN A.3): placement_total_partial, readonly_only_existing_partial and "
-                   "placement_maximal_partial carry the hypothesis `placement_certified ... = true`.  That the validator always "
-                   "accepts is not proved in Coq; Coq evaluates it on every model-vs-implementation case (every layout <= 3x3, "
-                   "seeded samples up to 4x5 and 20x30).  Independently the three clauses are checked directly on the real "
-                   "function for all 17 043 516 layouts <= 4 servers x <= 5 shares (thorough) with a Kuhn matching oracle.  "
-                   "Model follows /repo after fix commits d3035d7 and 47d1588."),
-    "technique": "Coq proof (sound validator + Koenig certificate) over an executable model run against the implementation; exhaustive small-scope oracle on the implementation",
+    "level_text": ("Coq, FULL for the model: executable model of share_placement and all its helpers (three matching phases on the "
+                   "Edmonds-Karp core shared with C08, homeless-share distribution with the priority queue, round-robin), every "
+                   "iteration over a Python set taken from an explicit order argument, so the theorems hold for every CPython set "
+                   "order.  Proved for ALL inputs satisfying the precondition and every result the model returns: placement_total "
+                   "(every share placed), readonly_only_existing (a read-only server only gets shares it holds; every share goes to "
+                   "a listed server), placement_maximal (#distinct servers = size of a maximum matching of writable--any share / "
+                   "read-only--held share: the read-only phase is a maximum matching by the flow invariant + Koenig cover of C08, the "
+                   "last phase matches min(#servers,#shares), matched entries of all phases survive merging/homeless "
+                   "distribution/round-robin, and any admissible matching is <= min(#shares, ro-matching + #writable))."),
+    "level_note": ("Theorems exclude the model's None (Python exception / fuel / order argument not a permutation): that "
+                   "share_placement's model returns a result on every wf input is not proved; the correspondence run compares "
+                   "model and real function (result dict) on every layout <= 3 servers x <= 3 shares, seeded samples up to 4x5 and "
+                   "20x30, with the iteration orders read off the running function, and finds a result every time.  Independently "
+                   "the three clauses are checked directly on the real function for all 17 043 516 layouts <= 4 servers x <= 5 "
+                   "shares (thorough) with a Kuhn matching oracle, and Coq evaluates the certificate validator "
+                   "(placement_certified) on every correspondence case.  Model follows /repo after fix commits d3035d7 and 47d1588."),
+    "technique": "Coq proof of the algorithm (all inputs, all set iteration orders) over an executable model + differential run of model vs implementation + exhaustive small-scope oracle on the implementation",
     "design_ref": "8/C07, 9/C07, A.3",
     "trusted_base": ["harness/props/c07.py reads the iteration order of the function's internal sets with sys.setprofile and hands it to the model",
                      "server ids enter the model as N; the driver uses 20-byte big-endian ids so bytes order = numeric order (sorted(), PriorityQueue ties)"],
